@@ -127,6 +127,25 @@ def run_case(ctx, repo, case):
             ctx.violation("spelled.wrong", "%r parsed as %r, spelled %r" % (
                 text, comps(p), want), text=text)
             return
+        # parsing is a function of the text alone: the same text again, and
+        # its sign-flipped twin, must decode consistently (history)
+        ctx.ev("spelled.repeat")
+        flipped = text[1:] if text.startswith("-") else "-" + text
+        try:
+            again = P.parse(text)
+            twin = P.parse(flipped)
+        except Exception as exc:
+            ctx.violation("spelled.repeat", "re-parsing %r / %r raised %r" % (
+                text, flipped, exc), text=text)
+            return
+        neg = {k: (-v if v else v) for k, v in want.items()}
+        if not same_components(again, want) or \
+                not same_components(twin, neg):
+            ctx.violation("spelled.repeat", "%r parsed a second time as %r "
+                          "and %r as %r (first parse %r)" % (
+                              text, comps(again), flipped, comps(twin),
+                              comps(p)), text=text)
+            return
         if "." in text:
             ctx.cls("point-decimal")
         ctx.nontrivial(("sp", text))
@@ -162,9 +181,9 @@ def rand_value(rng, unit, decimal_ok):
         n = rng.choice((1, 10, 60, 24, 100, 1000, 10**6, 999999, 365, 366))
     if decimal_ok and unit in ("hours", "minutes", "seconds") and \
             rng.random() < 0.35:
-        k = rng.randint(1, 6)
+        k = rng.choice((1, 2, 3, 4, 5, 6, 6, 9, 12))
         return rng.choice((n, 0)) + rng.choice(
-            (0.5, 0.25, 0.1, 0.000001, 0.999999,
+            (0.5, 0.25, 0.1, 0.000001, 0.999999, 1.23456789e-05, 4e-10,
              rng.randrange(1, 10 ** k) / 10 ** k))
     return n
 
@@ -195,7 +214,9 @@ def fmt_num(rng, v, point):
         return str(v)
     s = repr(v)
     if "e" in s:
-        s = "%.6f" % v
+        # positional notation with every digit of the shortest repr
+        from decimal import Decimal
+        s = format(Decimal(s), "f")
     return s.replace(".", point)
 
 
